@@ -331,7 +331,7 @@ def _lower_form(fn, e, block, idx, depth=0):
     return {}, 0
 
 
-def r15(ctx, P):
+def r15(ctx, P, rule='C10.15'):
     n = 0
     for name in sorted(REPO_ALLOCATORS):
         fn = P.functions.get(name)
@@ -350,6 +350,7 @@ def r15(ctx, P):
             return None
         good = set()
         described = []
+        weak = []
         for b in fn.blocks.values():
             if b.cond is None or len(b.succs) < 2:
                 continue
@@ -368,17 +369,23 @@ def r15(ctx, P):
                 if ext is None:
                     continue
                 coefs, k = _lower_form(fn, lo, b, len(b.events))
-                if coefs.get(size, 0) >= 1 and (k + (1 if strict else 0)) >= 4 + (0 if strict else 0):
-                    # size + k < ext (strict: size + k + 1 <= ext)
+                # the region is  [o, o + 4 + size)  and the next write index is  o + 4 + size:
+                #   extent = ring size: the next index must leave room for a 4-byte wrap marker: size + 8 <= B
+                #   extent = read index: the next index must stay strictly below it (head == tail means empty): size + 4 < tail
+                need = 8 if ext == 'buf_size' else 5
+                if coefs.get(size, 0) >= 1 and (k + (1 if strict else 0)) >= need:
                     good.add((b.id, lab))
                     described.append('%s on %s' % (show(c), lab))
+                elif coefs.get(size, 0) >= 1:
+                    weak.append('%s bounds %s + %d %s the %s; the prefix%s needs %d' % (
+                        show(c), size, k, '<' if strict else '<=', 'ring size' if ext == 'buf_size' else 'read index', ' and a later wrap marker' if ext == 'buf_size' else ' and a strict gap to the read index (head == tail means empty)', need))
         rets = [rv for rv in fn.returns() if rv.e is not None and const_of(rv.e) != 0 and const_of(strip_casts(rv.e)) != 0]
         for rv in rets:
             n += 1
             w = find_path(fn, 'entry', lambda ev, facts: 'target' if ev is rv else None, refine=True,
                           edge_ok=lambda b, s, label: (b.id, label) not in good)
-            ctx.ob('C10.15', w is None, fn.name, 'region returned for %s bytes' % size, rv.where(),
+            ctx.ob(rule, w is None, fn.name, 'region returned for %s bytes' % size, rv.where(),
                    'every path passes one of: %s' % '; '.join(sorted(set(described))) if w is None else
-                   'a path hands out the region after comparing %s only without its 4-byte prefix (or not at all): prefix + message extend past the ring' % size,
+                   'a path hands out the region without a sufficient bound on %s (%s): the prefix and message, or the next wrap marker, extend past the ring, or a full ring looks empty' % (size, '; '.join(weak) or 'no compare'),
                    w.render() if w else None)
     ctx.floor('ring hand-out returns', n, 1)
